@@ -200,4 +200,72 @@ example : orderScalar (1/2) (3/16) 0 = 7 ∧ rate 7 (1/2) = 14 := by decide +ker
 example : chainDeriv 2 5 [5, 5, 5] = [0, 0, 0] ∧ chainOut 5 [5, 5, 5] = 5 := by decide +kernel
 example : groupSlots [(0, (2, 4)), (1, (3, 6)), (2, (2, 4))] = [((2, 4), [2, 0]), ((3, 6), [1])] := by decide +kernel
 
+/-! ### how one delay slot is realised (`_add_edge_buffer`, chain branch): chain, ring buffer, history access or pass-through -/
+
+theorem C11_slot_through_iff (adaptive : Bool) (dt d s : Rat) (k : Nat) :
+    slotKind adaptive dt d s k = .through ↔
+      orderScalar d s k = 0 ∧ (d = 0 ∨ (adaptive = false ∧ (pyRound (d / dt)).toNat ≤ 1)) := by
+  unfold slotKind
+  by_cases hn : 0 < orderScalar d s k
+  · simp [hn]; omega
+  · have h0 : orderScalar d s k = 0 := by omega
+    by_cases hd : d = 0
+    · simp [hd]
+    · cases adaptive
+      · by_cases hk : 1 < (pyRound (d / dt)).toNat
+        · simp [h0, hd, hk]; omega
+        · simp [h0, hd, hk]; omega
+      · simp [h0, hd]
+
+/-- no delay that the scheme can represent is dropped: a slot with a non-zero delay is delivered undelayed only under a fixed-step solver
+and only if the delay rounds to at most one step (which PyRates neglects by design) -/
+theorem C11_slot_not_dropped (adaptive : Bool) (dt d s : Rat) (k : Nat) (hd : d ≠ 0)
+    (h : adaptive = true ∨ 2 ≤ (pyRound (d / dt)).toNat) : slotKind adaptive dt d s k ≠ .through := by
+  intro ht
+  rw [C11_slot_through_iff] at ht
+  rcases ht with ⟨_, h1 | ⟨ha, hk⟩⟩
+  · exact hd h1
+  · rcases h with h | h
+    · simp [ha] at h
+    · omega
+
+theorem C11_slot_ring_steps (adaptive : Bool) (dt d s : Rat) (k m : Nat) (h : slotKind adaptive dt d s k = .ring m) :
+    m = (pyRound (d / dt)).toNat ∧ 2 ≤ m ∧ orderScalar d s k = 0 ∧ adaptive = false := by
+  unfold slotKind at h
+  by_cases hn : 0 < orderScalar d s k
+  · simp [hn] at h
+  · have h0 : orderScalar d s k = 0 := by omega
+    simp only [hn, if_false] at h
+    by_cases hd : d = 0
+    · simp only [hd, if_true] at h; exact absurd h (by simp)
+    · cases adaptive
+      · by_cases hk : 1 < (pyRound (d / dt)).toNat
+        · simp [hd, hk] at h; subst h; exact ⟨rfl, by omega, h0, rfl⟩
+        · simp [hd, hk] at h
+      · simp [hd] at h
+
+theorem C11_slot_chain (adaptive : Bool) (dt d s : Rat) (k n : Nat) (a : Rat) (h : slotKind adaptive dt d s k = .chain n a) :
+    n = orderScalar d s k ∧ 0 < n ∧ a = rate n d := by
+  unfold slotKind at h
+  by_cases hn : 0 < orderScalar d s k
+  · simp [hn] at h; obtain ⟨h1, h2⟩ := h; subst h1; exact ⟨rfl, hn, h2.symm⟩
+  · simp only [hn, if_false] at h
+    by_cases hd : d = 0
+    · simp only [hd, if_true] at h; exact absurd h (by simp)
+    · cases adaptive
+      · by_cases hk : 1 < (pyRound (d / dt)).toNat
+        · simp [hd, hk] at h
+        · simp [hd, hk] at h
+      · simp [hd] at h
+
+/-- the defect that was repaired: a pure delay of `d = 5 dt` next to distributed delays was passed through -/
+theorem C11_slot_old_dropped : slotKindOld (5/100) 0 0 = .through ∧ slotKind false (1/100) (5/100) 0 0 = .ring 5 := by
+  decide +kernel
+
+example : slotKind false (1/8) (1/2) (1/4) 0 = .chain 4 8 := by decide +kernel
+example : slotKind true (1/8) (1/2) 0 0 = .history (1/2) := by decide +kernel
+example : slotKind false (1/8) (1/8) 0 0 = .through := by decide +kernel
+example : slotKind false (1/8) (1/2) 0 3 = .chain 3 6 := by decide +kernel
+
+
 end PyRates.Gamma
